@@ -1008,6 +1008,62 @@ func ruleC07Query(c *Checker) {
 				c.check(guarded(r.Block(), cs), R, name, fmt.Sprintf("nil return %d past the checksum rejection", i), p.Pos(r.Pos()), "acceptance only when no 'checksum' argument is present", "an archive address carrying a 'checksum' argument can be accepted on this path")
 				c.check(guarded(r.Block(), arch), R, name, fmt.Sprintf("nil return %d past an archive-format test", i), p.Pos(r.Pos()), "acceptance only with a tar.gz/tgz archive argument or a .tar.gz/.tgz path", "an archive address can be accepted without a recognised archive format")
 			}
+			// at most one archive argument: the value tests sit past the passing edge of a count test
+			var one []Edge
+			for _, b := range fn.Blocks {
+				ifi, ok := b.Instrs[len(b.Instrs)-1].(*ssa.If)
+				if !ok {
+					continue
+				}
+				cnd, neg := stripNot(ifi.Cond)
+				bo, ok := cnd.(*ssa.BinOp)
+				if !ok {
+					continue
+				}
+				lc, ok := bo.X.(*ssa.Call)
+				if !ok {
+					continue
+				}
+				if bi, ok := lc.Call.Value.(*ssa.Builtin); !ok || bi.Name() != "len" {
+					continue
+				}
+				k, isC := constInt(bo.Y)
+				if !isC {
+					continue
+				}
+				oneOnTrue, okOp := false, true
+				switch {
+				case bo.Op == token.GTR && k == 1, bo.Op == token.GEQ && k == 2, bo.Op == token.NEQ && k == 1:
+					oneOnTrue = false
+				case bo.Op == token.LEQ && k == 1, bo.Op == token.LSS && k == 2, bo.Op == token.EQL && k == 1:
+					oneOnTrue = true
+				default:
+					okOp = false
+				}
+				if !okOp {
+					continue
+				}
+				if neg {
+					oneOnTrue = !oneOnTrue
+				}
+				if oneOnTrue {
+					one = append(one, Edge{b, 0})
+				} else {
+					one = append(one, Edge{b, 1})
+				}
+			}
+			nv := 0
+			eachInstr(fn, func(in ssa.Instruction) {
+				bo, ok := in.(*ssa.BinOp)
+				if !ok || (bo.Op != token.EQL && bo.Op != token.NEQ) {
+					return
+				}
+				if s2, ok := constString(bo.Y); !ok || (s2 != "tar.gz" && s2 != "tgz") {
+					return
+				}
+				nv++
+				c.check(len(one) > 0 && guarded(bo.Block(), one), R, name, fmt.Sprintf("archive value test %d past the single-argument test", nv), p.Pos(bo.Pos()), "reached only with at most one 'archive' argument", "the 'archive' value is examined although there may be several 'archive' arguments (the count test is gone or off by one): archive=tgz&archive=zip is accepted, only the first value having been looked at")
+			})
 			// the archive value is tested as it is kept: a test of a transformed copy (lower-cased, trimmed)
 			// accepts spellings that the normalisation below does not recognise
 			isSet := func(in ssa.Instruction) bool {
